@@ -251,13 +251,36 @@ func checkHandleConnBadFrame(w *World, r *Report) {
 			}
 		}
 	}
+	scan := ci.fn
+	if ta == nil {
+		// the recognition moved into a helper that is handed Process' result: helper(processor.Process(frame))
+		if refs := ci.process.Referrers(); refs != nil {
+			for _, rf := range *refs {
+				hc, ok := rf.(*ssa.Call)
+				if !ok || hc.Call.StaticCallee() == nil || !w.IsRepoFunc(hc.Call.StaticCallee()) || len(hc.Call.StaticCallee().Blocks) == 0 {
+					continue
+				}
+				h := hc.Call.StaticCallee()
+				for i, a := range hc.Call.Args {
+					if a != ssa.Value(ci.process) || i >= len(h.Params) || h.Params[i].Referrers() == nil {
+						continue
+					}
+					for _, pr := range *h.Params[i].Referrers() {
+						if t, ok := pr.(*ssa.TypeAssert); ok && typeIs(t.AssertedType, "github.com/TheCacophonyProject/lepton3", "BadFrameErr") {
+							ta, scan = t, h
+						}
+					}
+				}
+			}
+		}
+	}
 	if ta == nil {
 		r.Fail("B4", "the bad-frame error type is recognised", w.InstrPos(ci.process), "no type assertion of Process' result to *lepton3.BadFrameErr", "")
 		return
 	}
 	r.Pass("B4", "the bad-frame error type is recognised", w.InstrPos(ta), "")
 	okRestart := false
-	for _, b := range ci.fn.Blocks {
+	for _, b := range scan.Blocks {
 		for _, in := range b.Instrs {
 			if c, ok := in.(*ssa.Call); ok && (calleeName(c) == "leptondController.RestartCamera" || alwaysCalls(w, c.Call.StaticCallee(), "leptondController.RestartCamera", 0)) {
 				gs := e.guardsOf(b)
